@@ -31,6 +31,12 @@ def run(ctx):
     r = ctx.tlc("LookupSync", "LookupSync_skipping.cfg", timeout=600, label="skip-ping-when-busy (expected: Refreshed violated)")
     if r.violated != "Refreshed":
         raise Inconclusive("LookupSync_skipping.cfg is not refuted (got %s)" % r.violated)
+    # pre-creation of a fresh topic's channels from the nsqlookupds' HTTP API (the peer info survives a dropped connection);
+    # dropping it with the connection must be refuted
+    ctx.model_check("LookupPre", "LookupPre_mc.cfg", timeout=300)
+    r = ctx.tlc("LookupPre", "LookupPre_forget.cfg", timeout=300, label="forget-on-close (expected: PreCreated violated)")
+    if r.violated != "PreCreated":
+        raise Inconclusive("LookupPre_forget.cfg is not refuted (got %s)" % r.violated)
     cases = []
     for i in range(2):
         cases.append({"kind": "reorder", "seed": i, "nlookupd": 1 + i % 2, "fails": []})
